@@ -823,6 +823,12 @@ private:
             }
         }
 
+        if (s.empty() || (s.length() == 1 && s[0] == '-')) // no hexadecimal digits at all ("", "-", "0x")
+        {
+            ec = cbor_errc::invalid_bigfloat;
+            return;
+        }
+
         write_tag(5);
         visit_begin_array((std::size_t)2, semantic_tag::none, context, ec);
         if (JSONCONS_UNLIKELY(ec)) return;
